@@ -1,24 +1,56 @@
 package c20
 
 import (
-	_ "crypto/sha1"
-	_ "crypto/sha256"
-	_ "crypto/sha512"
+	stdcrypto "crypto"
+	"crypto/sha1"
+	"crypto/sha256"
+	"crypto/sha512"
+	"hash"
 
 	"mellium.im/xmpp/crypto"
 )
 
-// every hash function crypto names; the ones linked in are used
-var allHashes = []crypto.Hash{
-	crypto.SHA1, crypto.SHA224, crypto.SHA256, crypto.SHA384, crypto.SHA512,
-	crypto.SHA3_256, crypto.SHA3_512, crypto.BLAKE2b_256, crypto.BLAKE2b_512,
+// algo is one hash function of the library's list: the wire name, the
+// library's value for it (what the library's users hand to Info.Hash after
+// calling New on it), and the reference constructor, which is chosen here by
+// algorithm name and never goes through the library's crypto package: the
+// standard library's own constructors for the SHA-1/SHA-2 family, and for
+// SHA-3 / BLAKE2b whatever implementation is registered with the standard
+// library's crypto.RegisterHash table (the Go distribution's own sha3; the
+// x/crypto blake2b when it is linked, see xhashes.go).
+type algo struct {
+	name string
+	lib  crypto.Hash
+	ref  func() hash.Hash
 }
 
-func hashes() []crypto.Hash {
-	var out []crypto.Hash
-	for _, h := range allHashes {
-		if h.Available() {
-			out = append(out, h)
+func registered(h stdcrypto.Hash) func() hash.Hash {
+	return func() hash.Hash {
+		if !h.Available() {
+			return nil
+		}
+		return h.New()
+	}
+}
+
+var algos = []algo{
+	{"sha-1", crypto.SHA1, sha1.New},
+	{"sha-224", crypto.SHA224, sha256.New224},
+	{"sha-256", crypto.SHA256, sha256.New},
+	{"sha-384", crypto.SHA384, sha512.New384},
+	{"sha-512", crypto.SHA512, sha512.New},
+	{"sha3-256", crypto.SHA3_256, registered(stdcrypto.SHA3_256)},
+	{"sha3-512", crypto.SHA3_512, registered(stdcrypto.SHA3_512)},
+	{"blake2b256", crypto.BLAKE2b_256, registered(stdcrypto.BLAKE2b_256)},
+	{"blake2b512", crypto.BLAKE2b_512, registered(stdcrypto.BLAKE2b_512)},
+}
+
+// linked returns the algorithms whose implementation is in this binary.
+func linked() []algo {
+	var out []algo
+	for _, a := range algos {
+		if a.ref() != nil {
+			out = append(out, a)
 		}
 	}
 	return out
